@@ -549,6 +549,22 @@ def register_element(definition: ElementDefinition, **kwargs):
     """
     global _ELEMENTS
 
+    if isinstance(definition, ElementDefinition):
+        # Initializing an element rewrites the static information (symbol,
+        # name, default values, etc.) of the class, so a class that is already
+        # registered under another symbol must be refused before that.
+        existing_symbol: str
+        existing_class: Type[Element]
+        for existing_symbol, existing_class in _ELEMENTS.items():
+            if (
+                existing_class is definition.Class
+                and isinstance(definition.symbol, str)
+                and existing_symbol != definition.symbol.strip()
+            ):
+                raise KeyError(
+                    f"The class '{definition.Class}' has already been registered using the symbol '{existing_symbol}'!"
+                )
+
     symbol: str
     Class: Type[Element]
     symbol, Class = _initialize_element(definition, **kwargs)
